@@ -118,6 +118,17 @@ def templates(tier="quick"):
         T.append(scenario("c14/missingdeps_depfile/" + name, "c14", [v], ops=ops, init=[b], depth=d, tags=["spelling", name, "depfile", "tools"],
                           twin_variants=[unspelled_twin(v)]))
 
+    # S8b a `default` line with several targets, the later ones spelled oddly
+    for name, sp in sorted(SPELLINGS.items()):
+        if name in ("trailing_dot", "trailing_slash"):
+            continue
+        v = Variant("v0", [Stmt("a", ex=["s"]), Stmt("sub/b", ex=["t"]), Stmt("c", ex=["u"]), Stmt("other", ex=["s"])], defaults=["a", "sub/b", "c"])
+        v.defaults_spell = {"sub/b": sp("sub/b"), "c": sp("c")}
+        tw = unspelled_twin(v)
+        tw.defaults_spell = {}
+        ops, b = _ops(v, ["other"])
+        T.append(scenario("c14/default_line/" + name, "c14", [v], ops=ops, init=[b], depth=d, tags=["spelling", name], twin_variants=[tw]))
+
     # S9 the manifest named on the command line (-f) spelled oddly, in a project whose manifest is regenerated
     def regen(name, ver):
         return Variant(name, [Stmt("build.ninja", ex=["build.ninja.in"], generator=True, copy=True),
